@@ -15,7 +15,8 @@ LEVEL_NOTE = ("numpy.sort / numpy.searchsorted are modelled by their specificati
 DESIGN_REF = "DESIGN.md §4 C09"
 
 THEOREMS = ["Ecdf.ge_ecdf_eq", "Ecdf.le_ecdf_eq", "Ecdf.ecdf_sum", "Ecdf.ge_anti", "Ecdf.le_mono",
-            "Ecdf.empty_none", "Ecdf.quantiles_eq", "Ecdf.cnt_le_length"]
+            "Ecdf.empty_none", "Ecdf.quantiles_eq", "Ecdf.cnt_le_length", "Ecdf.binned_ecdf_eq",
+            "Ecdf.quantiles_sum_ge", "Ecdf.above_all", "Ecdf.below_all", "Ecdf.perm_invariant"]
 TRUSTED = ["Lean 4.33 kernel", "axioms: propext, Classical.choice, Quot.sound at most",
            "numpy.sort returns the sorted permutation and numpy.searchsorted the left/right insertion point "
            "(modelled as List.mergeSort / takeWhile-length)",
@@ -114,10 +115,67 @@ def run(run, rng, tier):
         for v in rng.sample(qs, 3):
             _check_case(run, drv, pending, x, float(v) if kind != "int" else v, rng.random() < 0.3, "random-" + kind)
     _flush(run, drv, pending)
+    _binned(run, rng, tier)
+
+
+def _binned(run, rng, tier):
+    """binned_ecdf / ecdf: every entry is the "at most" probability at that query value"""
+    from csep.utils import stats
+    drv, pend = Driver(), []
+    if stats.binned_ecdf([], [1.0, 2.0]) is not None:
+        run.oracle_failure(dict(x=[], vals=[1.0, 2.0]), "binned_ecdf of an empty sample must be None")
+    for _ in range(60 if tier == "quick" else 600):
+        n = rng.randint(1, 60)
+        pool = [round(rng.uniform(0, 20), 1) for _ in range(rng.randint(1, 12))]
+        x = [rng.choice(pool) for _ in range(n)]
+        vals = sorted(set([rng.choice(pool) for _ in range(4)] + [min(pool) - 1.0, max(pool) + 1.0,
+                                                                  round(rng.uniform(0, 20), 2)]))
+        case = dict(x=[repr(t) for t in x], vals=[repr(v) for v in vals], tag="binned")
+        run.case(case, ("binned", tuple(x), tuple(vals)))
+        try:
+            got = stats.binned_ecdf(numpy.array(x), numpy.array(vals))
+            ex, ey = stats.ecdf(numpy.array(x))
+        except Exception as e:
+            run.oracle_failure(case, f"exception {type(e).__name__}: {e}")
+            continue
+        fx = [Fraction(t) for t in x]
+        want = [sum(1 for t in fx if t <= Fraction(v)) / n for v in vals]
+        if list(got[1]) != want or list(got[0]) != vals:
+            run.oracle_failure(case, f"binned_ecdf={list(got[1])!r} expected {want!r}")
+        if list(ex) != sorted(x) or list(ey) != [(i + 1) / n for i in range(n)]:
+            run.oracle_failure(case, "ecdf(x) is not (sorted x, (1..n)/n)")
+        pend.append((case, drv.ask(f"binned_ecdf {flist(x)} {flist(vals)}"), list(got[1])))
+    out = drv.run()
+    for case, i, got in pend:
+        try:
+            model = [int(t.split(":")[0]) / int(t.split(":")[1]) for t in out[i].split(",")]
+        except Exception:
+            model = None
+        if model != got:
+            run.mismatch(case, got, out[i])
 
 
 def replay(run, payload):
     case = payload["case"]
+    if case.get("tag") == "binned" or "vals" in case:
+        from csep.utils import stats
+        x = [float(t) for t in case["x"]]; vals = [float(t) for t in case["vals"]]
+        n = len(x)
+        if n == 0:
+            if stats.binned_ecdf([], vals) is not None:
+                run.oracle_failure(case, "binned_ecdf of an empty sample must be None")
+            return
+        got = stats.binned_ecdf(numpy.array(x), numpy.array(vals))
+        want = [sum(1 for t in x if Fraction(t) <= Fraction(v)) / n for v in vals]
+        run.case(case, None)
+        if list(got[1]) != want:
+            run.oracle_failure(case, f"binned_ecdf={list(got[1])!r} expected {want!r}")
+        return
+    if not case.get("x"):
+        from csep.utils import stats
+        if stats.greater_equal_ecdf([], 1.0) is not None:
+            run.oracle_failure(case, "empty sample must give None")
+        return
     x = [float(t) if "." in t or "e" in t or "inf" in t else int(t) for t in case["x"]]
     v = float(case["v"]) if "." in case["v"] else int(case["v"])
     drv, pending = Driver(), []
